@@ -22,6 +22,7 @@ CONSTANTS
   BodyKinds = {%(bodykinds)s}
   HookKinds = {%(hookkinds)s}
   MaxRcpts = {%(maxrcpts)s}
+  TlsModes = {%(tlsmodes)s}
   Depth = %(depth)d
   Record = %(record)s
 %(constraint)s
@@ -43,12 +44,12 @@ def q(xs):
 
 
 def gen_cfg(cmds, depth, mode, mailkinds=("ok",), rcptkinds=("a1", "b"), bodykinds=("ok",), hookkinds=("none",), maxrcpts=(3,),
-            start_in_tx=False, bound="Bound", only_ok=False):
+            start_in_tx=False, bound="Bound", only_ok=False, tlsmodes=("off",)):
     """mode: mc (exhaustive check of the contract model, no history) | bfs (every sequence to depth) |
     tour (every edge of the state graph once, with characterising suffix) | sim (for -simulate)"""
     record = mode != "mc"
     d = dict(cmds=q(cmds), mailkinds=q(mailkinds), rcptkinds=q(rcptkinds), bodykinds=q(bodykinds), hookkinds=q(hookkinds),
-             maxrcpts=q(maxrcpts), depth=depth, record="TRUE" if record else "FALSE", constraint="", properties="")
+             maxrcpts=q(maxrcpts), tlsmodes=q(tlsmodes), depth=depth, record="TRUE" if record else "FALSE", constraint="", properties="")
     if mode == "mc":
         d["constraint"] = "CONSTRAINT " + bound
         d["invariants"] = "TypeOK EnvelopeOnlyInTransaction DataNeedsRecipient RcptCountBounded DeliveryExact DiscardedNeverStored"
@@ -104,6 +105,7 @@ class Concretiser:
         self.nbody = 0
         self.mixed_cfg = False
         self.fail_mailbox = ""    # fault injection: the store refuses deliveries to this mailbox
+        self.tls = False          # STARTTLS configured (the driver creates certificate and key)
         self.origins = None       # C05: sender domains to rotate through for accepted-syntax MAIL commands
         self.norigin = 0
         # recipient classes: address, domain
@@ -145,7 +147,7 @@ class Concretiser:
     def cfg(self):
         p = dict(self.policy)
         p["rejectOrigin"] = [list(x) for x in p["rejectOrigin"]]
-        return {"policy": p, "maxRcpt": self.max_rcpt, "maxBytes": self.max_bytes, "naming": self.naming, "failMailbox": self.fail_mailbox}
+        return {"policy": p, "maxRcpt": self.max_rcpt, "maxBytes": self.max_bytes, "naming": self.naming, "failMailbox": self.fail_mailbox, "tls": self.tls}
 
     def verb(self, v):
         return mixcase(v, self.rng) if self.mixed else v
@@ -284,7 +286,7 @@ def behaviours_from(run, abstract, configs, stores, label):
                 conc = mk(random.Random("%d/%d/%d" % (run.seed, i, ci)))
                 steps = [conc.step(a) for a in seq]
                 out.append({"id": "%s-%d-%d-%s" % (label, i, ci, st), "store": st, "env": conc.env(), "cfg": conc.cfg(),
-                            "names": conc.mailboxes(), "steps": steps, "_abs": seq, "fail_mailbox": conc.fail_mailbox})
+                            "names": conc.mailboxes(), "steps": steps, "_abs": seq, "fail_mailbox": conc.fail_mailbox, "tls": conc.tls})
     return out
 
 
@@ -447,7 +449,13 @@ def c03(run, args):
     vh = run.build_harness()
     allmail = ("ok", "badsyntax", "sizebig", "sizebad", "badaddr", "origin", "null", "sizeok", "paramok")
     run.model_check("GenSmtp", gen_cfg(ALL_CMDS, 0, "mc", mailkinds=allmail, rcptkinds=("a1", "a2", "b", "c", "rej", "bad"),
-                                       bodykinds=("ok", "nohdr", "unparseable", "big"), maxrcpts=(0, 1, 2, 3)), label="GenSmtp(contract model)")
+                                       bodykinds=("ok", "nohdr", "unparseable", "big"), maxrcpts=(0, 2) if quick else (0, 1, 2, 3), tlsmodes=("off", "avail")), label="GenSmtp(contract model)")
+    # (0) STARTTLS configured: every edge over the commands whose meaning depends on where the session stands; an accepted
+    #     STARTTLS is followed by a real TLS negotiation and the dialogue goes on encrypted (it must start over at the greeting)
+    tls_cmds = ["helo", "mail", "rcpt", "data", "rset", "noop", "starttls", "authlogin", "quit"]
+    tourtls = run.generate("GenSmtp", gen_cfg(tls_cmds, 80, "tour", mailkinds=("ok", "badaddr"), rcptkinds=("a1", "rej"), bodykinds=("ok",), maxrcpts=(2,),
+                                              bound="Bound1" if quick else "Bound", tlsmodes=("avail",)), workers=4)
+    tourtls = [x for x in tourtls if any(a["c"] == "starttls" for a in x)]
     # (1) every edge of the state graph over the full alphabet (malformed lines, AUTH sub-dialogues, ...)
     tour = run.generate("GenSmtp", gen_cfg(ALL_CMDS, 80, "tour", mailkinds=allmail, rcptkinds=("a1", "rej", "bad") if quick else ("a1", "a2", "c", "rej", "bad"),
                                            bodykinds=("ok", "nohdr", "unparseable", "big"), maxrcpts=(1,) if quick else (2,), bound="Bound1" if quick else "Bound"), workers=4)
@@ -465,7 +473,12 @@ def c03(run, args):
     mk = lambda rng: Concretiser(rng, naming="local", policy=POLICIES[0], max_rcpt=3)
     stores = (lambda i: ["mem", "file"][(i + run.seed) % 2:][:1]) if quick else (lambda i: ["mem", "file"])
     mkt = lambda rng: Concretiser(rng, naming="local", policy=POLICIES[0], max_rcpt=1 if quick else 2, max_bytes=5000)
+    def mktls(rng):
+        c = Concretiser(rng, naming="local", policy=POLICIES[0], max_rcpt=2, max_bytes=5000)
+        c.tls = True
+        return c
     beh = behaviours_from(run, tour, lambda i: [mkt], stores, "tour")
+    beh += behaviours_from(run, tourtls, lambda i: [mktls], stores, "tls")
     beh += behaviours_from(run, sim, lambda i: [mk], stores, "sim")
     vb = behaviours_from(run, valid, lambda i: [lambda rng: Concretiser(rng, naming="local", policy=POLICIES[0], max_rcpt=3, mixed_verbs=False)],
                          lambda i: ["mem", "file"], "valid")
